@@ -58,11 +58,11 @@ fn line(d: &SolarDay, first: bool, _p: Option<&SolarDay>) -> String {
 }
 
 pub fn run(ctx: &Ctx) -> usize {
-  let mut wins = day_windows(ctx, 1501, 20, 250, 1);
+  let mut wins = day_windows(ctx, 1501, 100, 250, 1);
   if ctx.quick() {
     // summers and winters of seeded years: where the series live
     let mut rng = ctx.rng(1502);
-    for _ in 0..60 {
+    for _ in 0..200 {
       let y = rng.range(2, 9997);
       wins.push(Window { start: Start::Ymd(y, 6, 1), days: 95 });
       wins.push(Window { start: Start::Ymd(y, 12, 15), days: 100 });
